@@ -89,7 +89,10 @@ impl Check for C15 {
             .collect();
         json!({"net": net, "mode": mode, "rounds": rounds, "v6": g.chance(20), "port": *g.pick(&[53u64, 1, 65_535, 5353, 40_000]),
             // handler mode: how the script cuts the byte stream into PSH frames
-            "cut_seeds": (0..g.range(0, 12)).map(|_| g.next() % 1_000_000).collect::<Vec<_>>(), "one_byte_frames": g.chance(8), "scheme": if g.chance(50) { DEFAULT_SCHEME.to_string() } else { gen_scheme_small(&mut g) }})
+            "cut_seeds": (0..g.range(0, 12)).map(|_| g.next() % 1_000_000).collect::<Vec<_>>(), "one_byte_frames": g.chance(8),
+            // handler mode: the peer (or the network) stalls for this long after the frame that ends at a seeded
+            // cut — fragmentation in time: the rest of a half-delivered datagram arrives much later
+            "pauses": (0..if g.chance(40) { g.range(1, 3) } else { 0 }).map(|_| json!([g.next() % 1_000_000, *g.pick(&[1u64, 200, 4_900, 5_100, 12_000, 31_000, 70_000])])).collect::<Vec<_>>(), "scheme": if g.chance(50) { DEFAULT_SCHEME.to_string() } else { gen_scheme_small(&mut g) }})
     }
     fn horizon(&self, _p: &Value) -> Duration {
         Duration::from_secs(5_000)
@@ -215,8 +218,11 @@ impl Check for C15 {
                     cuts.dedup();
                     cuts.push(bytes.len());
                     let mut pos = 0;
-                    let mut frames = Vec::new();
-                    for c in cuts {
+                    let ncuts = cuts.len();
+                    let pauses: Vec<(usize, u64)> = plan["pauses"].as_array().into_iter().flatten().filter_map(|x| Some(((x[0].as_u64()? as usize * ncuts) / 1_000_000, x[1].as_u64()?))).collect();
+                    let mut died = false;
+                    for (ci, c) in cuts.into_iter().enumerate() {
+                        let mut frames = Vec::new();
                         let mut p = pos;
                         while p < c {
                             let e = std::cmp::min(c, p + 65_535);
@@ -224,8 +230,16 @@ impl Check for C15 {
                             p = e;
                         }
                         pos = c;
+                        if sr.to_server.write_all(&frames).await.is_err() || sr.to_server.flush().await.is_err() {
+                            died = true;
+                            break;
+                        }
+                        if let Some((_, ms)) = pauses.iter().find(|(i, _)| *i == ci) {
+                            anytls_simnet::world::fault_fired("transport.delivery_pause_mid_stream");
+                            sleep(Duration::from_millis(*ms)).await;
+                        }
                     }
-                    if sr.to_server.write_all(&frames).await.is_err() {
+                    if died {
                         out.viol("setup", "session-died", "the server session stopped reading");
                         return out;
                     }
@@ -298,7 +312,7 @@ impl Check for C15 {
         out
     }
     fn rule(&self) -> &'static str {
-        "one case = 1-6 rounds of 0-3 datagrams towards the target and 0-3 replies, sizes from {1,2,3,254-258,1471-1473,8190-8194,65000,65505-65507,random}, IPv4 or IPv6 target, boundary ports; mode system (55%): application socket through the real Client::create_udp_proxy, real sessions over rustls, real Server and handle_udp_over_tcp to a simulated target socket; mode handler (45%): the real handle_udp_over_tcp behind a real server Session fed by a scripted peer that cuts the length-prefixed byte stream into PSH frames at seeded offsets (always inside the first prefix, sometimes one byte per frame) over a fragmenting transport; simulated UDP is lossless and ordered so every missing, merged, split or altered datagram is the tunnel's doing; non-trivial = at least one datagram was exchanged; distinct = distinct (plan hash, poll-order fingerprint)"
+        "one case = 1-6 rounds of 0-3 datagrams towards the target and 0-3 replies, sizes from {1,2,3,254-258,1471-1473,8190-8194,65000,65505-65507,random}, IPv4 or IPv6 target, boundary ports; mode system (55%): application socket through the real Client::create_udp_proxy, real sessions over rustls, real Server and handle_udp_over_tcp to a simulated target socket; mode handler (45%): the real handle_udp_over_tcp behind a real server Session fed by a scripted peer that cuts the length-prefixed byte stream into PSH frames at seeded offsets (always inside the first prefix, sometimes one byte per frame) over a fragmenting transport, in 40% of the cases with 1-3 pauses of 1 ms .. 70 s after the frame ending at a seeded cut (the rest of a half-delivered datagram arrives much later); simulated UDP is lossless and ordered so every missing, merged, split or altered datagram is the tunnel's doing; non-trivial = at least one datagram was exchanged; distinct = distinct (plan hash, poll-order fingerprint)"
     }
     fn real_components(&self) -> Vec<&'static str> {
         vec!["Client::create_udp_proxy / udp_proxy_loop / encode_udp_packet / read_udp_packet (client)", "handle_udp_over_tcp / read_initial_request / stream_to_udp / udp_to_stream (server)", "Session, Stream, StreamReader::read_exact, codec, padding, rustls (system mode)"]
